@@ -4,11 +4,17 @@ statement evaluated on the implementation alone).
 A geometry is described by a *recipe* (a JSON-able dict) so that any failing input can be
 replayed: base ('rect' with its arguments, or a shipped file) + ops (refine / reduce /
 rotate / translate, surfaces, wells, header options).  build(recipe, repo) is deterministic."""
-import os, math, random, tempfile, shutil, io, contextlib
+import os, math, random, tempfile, shutil, io, contextlib, json
 import numpy as np
 
 SHIPPED = ['g1.dat', 'g2.dat', 'g3.dat', 'g4.dat', 'g5.dat', 'g6.dat', 'g7.dat']
 BLOCK_ORDER_INT = {None: None, 'layer_column': 0, 'dmplex': 1}
+# witness of the recorded finding write:layer-centre-prints-zero (known_findings.txt): layer ' 2' lies between 0.5051
+# and -0.5049, its centre 0.0001 prints as 0.00, which read_layers takes for "absent" and replaces by the mid-point of
+# the printed bottoms 0.51 and -0.50 = 0.005000000000000004, printed as 0.01 by the second write
+WITNESS_CENTRE_ZERO = {'kind': 'rect', 'xb': [100.0, 100.0], 'yb': [100.0], 'zb': [10.0, 1.01, 30.0], 'conv': 0, 'atm': 2, 'case': None,
+                       'bo': None, 'origin': [0.0, 0.0, 10.5051], 'ops': []}
+FIXED = [WITNESS_CENTRE_ZERO]
 
 
 # ---------------------------------------------------------------- numbers
@@ -126,6 +132,8 @@ def gen_recipe(rng, i, thorough):
     """The i-th geometry of the population."""
     if i < len(SHIPPED):
         return {'kind': 'file', 'name': SHIPPED[i], 'ops': []}
+    if i < len(SHIPPED) + len(FIXED):
+        return json.loads(json.dumps(FIXED[i - len(SHIPPED)]))
     u = rng.random()
     if u < 0.78:
         r = gen_rect(rng, big=(rng.random() < 0.15))
@@ -260,6 +268,28 @@ def classify(a):
     return 'plain'
 
 
+def only_zero_centres_differ(l1, l2, spec):
+    """Classifier of the recorded finding write:layer-centre-prints-zero: the two files have the same number of lines
+    and differ only in lines of the LAYERS section whose centre field in the FIRST file is zero (0.00 / -0.00), and
+    there only in that field."""
+    if len(l1) != len(l2) or 'LAYERS' not in l1: return False
+    lo = l1.index('LAYERS') + 1
+    hi = lo
+    while hi < len(l1) and l1[hi].strip(): hi += 1
+    w = [int(f[:-1].partition('.')[0]) for f in spec['layer'][1]]
+    c0, c1 = w[0] + w[1], w[0] + w[1] + w[2]
+    some = False
+    for i, (x, y) in enumerate(zip(l1, l2)):
+        if x == y: continue
+        if not (lo <= i < hi): return False
+        if x[:c0] != y[:c0] or x[c1:] != y[c1:]: return False
+        try:
+            if float(x[c0:c1]) != 0.0: return False
+        except ValueError: return False
+        some = True
+    return some
+
+
 def check_roundtrip(g, tables, tmpdir, tag='g'):
     """The property statement on the implementation.  Returns (None | (callsite, observed, required)), files"""
     from mulgrids import mulgrid
@@ -327,8 +357,10 @@ def check_roundtrip(g, tables, tmpdir, tag='g'):
     if t1 != t2:
         l1, l2 = t1.split('\n'), t2.split('\n')
         d = next((i for i, (x, y) in enumerate(zip(l1, l2)) if x != y), min(len(l1), len(l2)))
-        return ('write', 'second file differs at line %d: %r vs %r' % (d + 1, l1[d] if d < len(l1) else None, l2[d] if d < len(l2) else None),
-                'writing the re-read geometry reproduces the first file byte for byte'), a, f1, f2
+        fail = ('write', 'second file differs at line %d: %r vs %r' % (d + 1, l1[d] if d < len(l1) else None, l2[d] if d < len(l2) else None),
+                'writing the re-read geometry reproduces the first file byte for byte')
+        if only_zero_centres_differ(l1, l2, spec): fail = fail + ('layer-centre-prints-zero',)
+        return fail, a, f1, f2
     if ha['unit'] == 'FEET ' and a['nodes']:
         # the file holds feet: the first node line carries x / 0.3048 to two decimals
         lines = t1.split('\n')
